@@ -10,6 +10,7 @@ import (
 	"math"
 	"os"
 	"path/filepath"
+	"strconv"
 	"testing"
 
 	"github.com/markusressel/fan2go/internal/configuration"
@@ -82,7 +83,11 @@ func (w *vxC08World) set(s vxC08Sym) {
 		out := ""
 		switch s.Fault {
 		case "":
-			out = fmt.Sprintf("echo %d", int64(s.Value))
+			if math.Abs(s.Value) < 1e18 {
+				out = fmt.Sprintf("echo %d", int64(s.Value))
+			} else {
+				out = "echo " + strconv.FormatFloat(s.Value, 'g', -1, 64) // a command may print any float
+			}
 		case "exit1":
 			out = "echo 42000; exit 1"
 		case "gibberish":
@@ -219,6 +224,8 @@ func vxC08Alphabet(kind string) []vxC08Sym {
 	}
 	if kind == "cmd" {
 		a = a[1:5]
+		// a command prints a float: finite readings near the ends of the float64 range, of both signs
+		a = append(a, vxC08Sym{Value: 1.5e308}, vxC08Sym{Value: -1.5e308})
 		for _, f := range []string{"exit1", "gibberish", "empty", "nan", "inf", "-inf"} {
 			a = append(a, vxC08Sym{Fault: f})
 		}
